@@ -8,9 +8,18 @@ equalities `Gen.itoa = PyStr.fmtBinL / fmtDecL / toDigits 16` are in `Py65/Proof
 `disasm_shows_bytes` is restated for the generated `Monitor._format_disassembly` (py65/monitor.py).
 What remains modelled (library behaviour): `dict.get`, `"{0:b}" / "{0}" / "{0:x}".format(n)`
 (`Model/GenRt.lean`), `str.rjust`, `str.zfill`, `int(s, base)` (`Model/PyStr.lean`).
+
+Second part (`harness/py2lean_show.py`, `Py65/Gen/ReprGen.lean`, `Py65/Gen/MonShowGen.lean`,
+`Py65/Proofs/ReprGenEq.lean`): `repr_roundtrip`, `repr_flag_bits`, `status_shows_registers`,
+`cycles_shows_counter`, `tilde_shows_number`, `tilde_rejects`, `disasm_walk_shows_bytes`,
+`disasm_walk_complete` restated for the GENERATED `MPU.__repr__` (three device classes),
+`Monitor._output_mpu_status`, `do_cycles`, `do_tilde`, `do_disassemble`, with the generated `itoa`,
+`__repr__` and `_format_disassembly` plugged into their parameters.
 -/
 import Py65.Props.C19b
+import Py65.Props.C19c
 import Py65.Proofs.DisasmGenEq
+import Py65.Proofs.ReprGenEq
 
 namespace Py65.Props.C19g
 open Py65.Model.PyStr Py65.Model.GenRt Py65.Model.Fmt Py65.Proofs.Fmt Py65.Proofs.DisasmGenEq
@@ -92,5 +101,250 @@ theorem disasm_shows_bytes (d : Dev) (hd : d ∈ devices) (mem : Nat → Nat) (h
 /-- non-vacuity: the generated code itself, evaluated by the kernel (a line at the top of memory wraps) -/
 example : Monitor._format_disassembly (monOf dev6502 (fun a => if a = 0xffff then 0xa9 else 0x42)) 0xffff 2
     "LDA #$42".toList = .ok "$ffff  a9 42     LDA #$42".toList := by decide +kernel
+
+/-! ## the display functions regenerated by `harness/py2lean_show.py` -/
+
+section Show
+open Py65 Py65.Model.MonGenRt Py65.Model.ShowRt Py65.Model.Show Py65.Model.AddrParser Py65.Proofs.ReprGenEq
+open Py65.Gen
+
+/-- the exception classes of the generated disassembler side as the monitor's -/
+def excOf : PyErr → Exc
+  | .IndexError => .IndexError
+  | .ValueError _ => .ValueError
+  | _ => .Other
+
+/-- a call of a generated function of `Gen/DisasmGen.lean` from the generated monitor methods -/
+def liftE {α : Type} : PyM α → Except Exc α
+  | .ok v => .ok v
+  | .error e => .error (excOf e)
+
+/-- the GENERATED `itoa` (py65/utils/conversions.py), as the parameter `itoa` -/
+def itoaG (num base : Int) : Except Exc Str := liftE (itoa num base)
+
+theorem itoaG_bin : ItoaBin itoaG := fun n => by simp only [itoaG, itoa_eq_bin, liftE]
+
+theorem itoaG_binInt : ItoaBinInt itoaG := fun v => by
+  simp only [itoaG, liftE, itoa, _itoa_fmts, dictGet, strFormat1, intDigits, digitsInt]
+  simp
+
+/-- the GENERATED `__repr__` of the three device classes, each with the display model's device record -/
+def genReprs : List (Model.Fmt.Dev × (St → Flow St Str)) :=
+  [(dev6502, ReprGen.dev6502.__repr__ itoaG), (dev65c02, ReprGen.dev65c02.__repr__ itoaG),
+   (dev65org16, ReprGen.dev65org16.__repr__ itoaG)]
+
+theorem genReprs_eq {p : Model.Fmt.Dev × (St → Flow St Str)} (hp : p ∈ genReprs) (s : St) (hs : NonNeg s) :
+    p.1 ∈ devices ∧ p.2 s = .ok (Model.Fmt.repr p.1 (regsOf s)) s := by
+  simp only [genReprs, List.mem_cons, List.mem_nil_iff, or_false] at hp
+  rcases hp with rfl | rfl | rfl
+  · exact ⟨by simp [devices], repr_eq_6502 itoaG itoaG_bin s hs⟩
+  · exact ⟨by simp [devices], repr_eq_65c02 itoaG itoaG_bin s hs⟩
+  · exact ⟨by simp [devices], repr_eq_65org16 itoaG itoaG_bin s hs⟩
+
+/-- `repr_roundtrip` for the GENERATED `__repr__` of every device class: on a device whose registers
+are within its widths the call returns (the device untouched), and reading the second line of the
+text back by its fixed columns gives exactly PC, A, X, Y, SP and P. -/
+theorem repr_roundtrip (p : Model.Fmt.Dev × (St → Flow St Str)) (hp : p ∈ genReprs) (s : St) (hs : NonNeg s)
+    (hr : (regsOf s).WF p.1) :
+    ∃ t, p.2 s = .ok t s ∧ parseLine2 p.1 (afterNewline t) = some (regsOf s) :=
+  ⟨_, (genReprs_eq hp s hs).2, C19.repr_roundtrip p.1 (genReprs_eq hp s hs).1 _ hr⟩
+
+/-- non-vacuity: the generated code itself, evaluated by the kernel (65Org16, N set, P 16 bits wide) -/
+example : reprOf (ReprGen.dev65org16.__repr__ itoaG)
+      { (default : St) with pc := 0xc000, a := 1, x := 2, y := 3, sp := 0xffff, p := 0x8030 } =
+    .ok "            PC     AC   XR   YR   SP  NV---------BDIZC\n65Org16: 0000c000 0001 0002 0003 ffff 1000000000110000".toList := by
+  decide +kernel
+
+example : reprOf (ReprGen.dev6502.__repr__ itoaG)
+      { (default : St) with pc := 0xc000, a := 1, x := 2, y := 3, sp := 0xff, p := 0xb1 } =
+    .ok "       PC  AC XR YR SP NV-BDIZC\n6502: c000 01 02 03 ff 10110001".toList := by decide +kernel
+
+/-- `repr_flag_bits` for the GENERATED `__repr__`: the text is two lines; from column `flagCol` on, the
+second line is, from left to right, bits `W-1 … 0` of P (`'1'` for a set bit), exactly `W = BYTE_WIDTH`
+characters, and the first line carries the title `NV-BDIZC` (`NV---------BDIZC`) at that very column. -/
+theorem repr_flag_bits (p : Model.Fmt.Dev × (St → Flow St Str)) (hp : p ∈ genReprs) (s : St) (hs : NonNeg s)
+    (hr : (regsOf s).WF p.1) :
+    ∃ l1 l2, p.2 s = .ok (l1 ++ '\n' :: l2) s ∧ '\n' ∉ l1 ∧
+      l2.drop (flagCol p.1) = (List.range p.1.byteWidth).reverse.map (flagChar (regsOf s).p) ∧
+      (l2.drop (flagCol p.1)).length = p.1.byteWidth ∧
+      l1.drop (flagCol p.1) = flagTitle p.1 ∧ (flagTitle p.1).length = p.1.byteWidth := by
+  obtain ⟨hd, he⟩ := genReprs_eq hp s hs
+  obtain ⟨h1, h2, h3, h4, h5⟩ := C19.repr_flag_bits p.1 hd _ hr
+  refine ⟨reprLine1 p.1, reprLine2 p.1 (regsOf s), ?_, (devOK_of_mem hd).nonl, ?_, ?_, h4, h5⟩
+  · rw [he]; simp [Model.Fmt.repr]
+  · rw [h3, h1]
+  · rw [h3, h2]
+
+/-- the GENERATED `__repr__` as the parameter `mpurepr` (`repr(self._mpu)`) -/
+def mpureprG (p : Model.Fmt.Dev × (St → Flow St Str)) : St → Except Exc Str := reprOf p.2
+
+/-- the monitor's copy of the device constants, from the display model's record -/
+def mdev (d : Model.Fmt.Dev) : Model.MonMem.Dev :=
+  { AW := d.addrWidth, BW := d.byteWidth, addrFmtW := d.addrDigits, byteFmtW := d.byteDigits }
+
+/-- `status_shows_registers`: the GENERATED `_output_mpu_status` (what `onecmd` prints after every
+command) with the GENERATED `__repr__`: one more output item, `"\n" + repr(mpu)`; with `_output`'s
+newline it is the display model's `status`, and its register line reads back to the registers. -/
+theorem status_shows_registers (p : Model.Fmt.Dev × (St → Flow St Str)) (hp : p ∈ genReprs)
+    (iat : St → Int → Except Exc (Int × Str)) (fmtdis : St → Int → Int → Str → Except Exc Str) (P : Parser)
+    (σ : ShowSt) (hs : NonNeg σ.mpu) (hr : (regsOf σ.mpu).WF p.1) :
+    ∃ t, MonShowGen._output_mpu_status itoaG (mpureprG p) iat fmtdis (mdev p.1) P σ =
+        .ok () { mpu := σ.mpu, out := σ.out ++ ['\n' :: t] } ∧
+      ('\n' :: t) ++ ['\n'] = status p.1 (regsOf σ.mpu) ∧
+      parseLine2 p.1 (afterNewline t) = some (regsOf σ.mpu) := by
+  obtain ⟨hd, he⟩ := genReprs_eq hp σ.mpu hs
+  have hm : mpureprG p σ.mpu = .ok (Model.Fmt.repr p.1 (regsOf σ.mpu)) := by simp only [mpureprG, reprOf, he]
+  exact ⟨_, output_mpu_status_eq itoaG _ iat fmtdis _ P p.1 σ hm, status_text _ _, C19.repr_roundtrip p.1 hd _ hr⟩
+
+/-- `cycles_shows_counter` for the GENERATED `do_cycles`: one line, and reading its decimal digits
+back gives the device's cycle counter (any counter CPython can print: below `10^4300`). -/
+theorem cycles_shows_counter (itoa : Int → Int → Except Exc Str) (mpurepr : St → Except Exc Str)
+    (iat : St → Int → Except Exc (Int × Str)) (fmtdis : St → Int → Int → Str → Except Exc Str)
+    (d : Model.MonMem.Dev) (P : Parser) (args : Str) (σ : ShowSt) (h0 : 0 ≤ σ.mpu.cycles)
+    (hn : σ.mpu.cycles.toNat < 10 ^ 4300) :
+    ∃ t, MonShowGen.do_cycles itoa mpurepr iat fmtdis d P args σ = .ok () { mpu := σ.mpu, out := σ.out ++ [t] } ∧
+      pyIntL t 10 = some σ.mpu.cycles := by
+  refine ⟨_, do_cycles_eq itoa mpurepr iat fmtdis d P args σ h0, ?_⟩
+  rw [C19.cycles_shows_counter _ hn, Int.toNat_of_nonneg h0]
+
+/-- non-vacuity: the generated code, evaluated by the kernel -/
+example : (match MonShowGen.do_cycles itoaG (mpureprG (dev6502, ReprGen.dev6502.__repr__ itoaG)) (fun _ _ => .error .Other)
+      (fun _ _ _ _ => .error .Other) (mdev dev6502) ⟨16, 16, []⟩ [] ⟨{ (default : St) with cycles := 123456 }, []⟩ with
+    | .ok _ σ => σ.out | _ => []) = ["123456".toList] := by decide +kernel
+
+/-- `tilde_shows_number` for the GENERATED `do_tilde` with the GENERATED `itoa`: for an argument the
+address parser reads as `n`, exactly four more lines -- `+` decimal, `$` hex (the device's byte
+format), octal, binary -- each denoting `n`. -/
+theorem tilde_shows_number (mpurepr : St → Except Exc Str) (iat : St → Int → Except Exc (Int × Str))
+    (fmtdis : St → Int → Int → Str → Except Exc Str) (d : Model.MonMem.Dev) (P : Parser) (args : Str) (σ : ShowSt)
+    (n : Nat) (hn : n < 10 ^ 4300) (hargs : args ≠ []) (hp : numberL P args = .ok (n : Int)) :
+    ∃ t1 t2 t3 t4, MonShowGen.do_tilde itoaG mpurepr iat fmtdis d P args σ =
+        .ok () { mpu := σ.mpu, out := σ.out ++ ['+' :: t1, '$' :: t2, t3, t4] } ∧
+      pyIntL t1 10 = some (n : Int) ∧ pyIntL t2 16 = some (n : Int) ∧
+      pyIntL t3 8 = some (n : Int) ∧ pyIntL t4 2 = some (n : Int) := by
+  obtain ⟨t1, t2, t3, t4, h, r⟩ := C19.tilde_shows_number d.byteFmtW P args n hn hargs hp
+  refine ⟨t1, t2, t3, t4, ?_, r⟩
+  rw [do_tilde_eq itoaG itoaG_binInt, h]
+  rfl
+
+/-- non-vacuity: the generated `do_tilde` (and the generated `itoa` inside it), evaluated by the kernel -/
+example : (match MonShowGen.do_tilde itoaG (fun _ => .error .Other) (fun _ _ => .error .Other)
+      (fun _ _ _ _ => .error .Other) (mdev dev6502) ⟨16, 16, []⟩ "$1ff".toList ⟨default, []⟩ with
+    | .ok _ σ => σ.out | _ => []) = ["+511".toList, "$1ff".toList, "0777".toList, "111111111".toList] := by
+  decide +kernel
+
+/-- `tilde_rejects` for the GENERATED `do_tilde`: a `KeyError` / `OverflowError` of the parser prints
+one message line and no number. -/
+theorem tilde_rejects (mpurepr : St → Except Exc Str) (iat : St → Int → Except Exc (Int × Str))
+    (fmtdis : St → Int → Int → Str → Except Exc Str) (d : Model.MonMem.Dev) (P : Parser) (args : Str) (σ : ShowSt)
+    (hargs : args ≠ []) :
+    (numberL P args = .key → MonShowGen.do_tilde itoaG mpurepr iat fmtdis d P args σ =
+      .ok () { mpu := σ.mpu, out := σ.out ++ ["Bad label: ".toList ++ args] }) ∧
+    (numberL P args = .overflow → MonShowGen.do_tilde itoaG mpurepr iat fmtdis d P args σ =
+      .ok () { mpu := σ.mpu, out := σ.out ++ ["Overflow error: ".toList ++ args] }) := by
+  obtain ⟨h1, h2⟩ := C19.tilde_rejects d.byteFmtW P args hargs
+  constructor <;> intro h
+  · rw [do_tilde_eq itoaG itoaG_binInt, h1 h]; rfl
+  · rw [do_tilde_eq itoaG itoaG_binInt, h2 h]; rfl
+
+/-- the memory of the device as the display model's memory (cells are not negative) -/
+def natMem (m : Int → Int) : Nat → Nat := fun a => (m (a : Int)).toNat
+
+/-- the GENERATED `Monitor._format_disassembly`, as the parameter `fmtdis` -/
+def fmtdisG (d : Model.Fmt.Dev) : St → Int → Int → Str → Except Exc Str :=
+  fun s address length disasm => liftE (Monitor._format_disassembly (monOf d (natMem s.mem)) address length disasm)
+
+/-- the GENERATED `Disassembler.instruction_at` (device record `dA`, parser `P`), as the parameter `iat` -/
+def iatG (dA : Model.Asm.Dev) (P : Parser) : St → Int → Except Exc (Int × Str) :=
+  fun s pc => liftE ((disOf dA P s.mem).instruction_at pc)
+
+theorem fmtdisG_spec {d : Model.Fmt.Dev} (hd : d ∈ devices) (s : St) (a len : Nat) (text : Str) :
+    fmtdisG d s (a : Int) (len : Int) text = .ok (formatDisassembly d (natMem s.mem) a len text) := by
+  simp only [fmtdisG, format_disassembly_eq hd, liftE]
+
+/-- `disasm_walk_shows_bytes` for the GENERATED `do_disassemble` with the GENERATED
+`_format_disassembly`, and ANY disassembler `iat` (in particular the generated `instruction_at`, `iatG`):
+when the command, on a range `start … end` inside the address space (ordinary or wrapping), completes,
+it has printed one line per visited instruction, in order -- the first at `start`, each next one the
+returned length further on (`Visits`), up to the first address beyond `end` -- and every line shows the
+address the walk is at and the cells in memory at that address. -/
+theorem disasm_walk_shows_bytes (d : Model.Fmt.Dev) (hd : d ∈ devices) (itoa : Int → Int → Except Exc Str)
+    (mpurepr : St → Except Exc Str) (iat : St → Int → Except Exc (Int × Str)) (P : Parser) (fuel : Nat) (args : Str)
+    (σ σ' : ShowSt) (hm : ∀ a, natMem σ.mpu.mem a < 2 ^ d.byteWidth) (start end_ : Int)
+    (hr : disRange P args = .range start end_) (h0 : 0 ≤ start) (h1 : start ≤ (2 : Int) ^ d.addrWidth - 1)
+    (h2 : end_ ≤ (2 : Int) ^ d.addrWidth - 1)
+    (h : MonShowGen.do_disassemble itoa mpurepr iat (fmtdisG d) (mdev d) P fuel args σ = .ok () σ') :
+    ∃ vs lines, σ'.mpu = σ.mpu ∧ σ'.out = σ.out ++ lines ∧
+      Visits (iat σ.mpu) ((2 : Int) ^ d.addrWidth - 1) start end_ start (decide (start > end_)) vs ∧
+      List.Forall₂ (fun v line => ∃ a len : Nat, v.1 = (a : Int) ∧ v.2.1 = (len : Int) ∧
+        C19.ShowsBytes d (natMem σ.mpu.mem) a len v.2.2 line) vs lines := by
+  rw [do_disassemble_eq] at h
+  simp only [doDisassemble, hr, disFlow, mdev] at h
+  generalize hw : walk (iat σ.mpu) (fmtdisG d σ.mpu) ((2 : Int) ^ d.addrWidth - 1) start end_ fuel start
+    (decide (start > end_)) = w at h
+  obtain ⟨lines, e⟩ := w
+  cases e with
+  | raised e => simp [walkFlow] at h
+  | nofuel => simp [walkFlow] at h
+  | done =>
+    simp only [walkFlow, Flow.ok.injEq, true_and] at h
+    obtain ⟨vs, hv, hf⟩ := C19.disasm_walk_shows_bytes d hd (natMem σ.mpu.mem) hm (iat σ.mpu) (fmtdisG d σ.mpu)
+      (fmtdisG_spec hd σ.mpu) start end_ fuel lines h0 h1 h2 hw
+    exact ⟨vs, lines, by rw [← h], by rw [← h], hv, hf⟩
+
+/-- `disasm_walk_complete` for the GENERATED `do_disassemble`: on an ordinary range whose instructions
+all have a length in `1 … L` (as `C09g.dis_len` / `dis_undeclared` show of the generated disassembler
+with `L = 3`) the command completes within `cells + L + 1` units of fuel, so the hypothesis of
+`disasm_walk_shows_bytes` is satisfiable. -/
+theorem disasm_walk_complete (d : Model.Fmt.Dev) (hd : d ∈ devices) (itoa : Int → Int → Except Exc Str)
+    (mpurepr : St → Except Exc Str) (iat : St → Int → Except Exc (Int × Str)) (P : Parser) (fuel : Nat) (args : Str)
+    (σ : ShowSt) (start end_ : Int) (hr : disRange P args = .range start end_) (h0 : 0 ≤ start) (hse : start ≤ end_)
+    (L : Nat) (hi : ∀ a, 0 ≤ a → a ≤ end_ → ∃ len text, iat σ.mpu a = .ok (len, text) ∧ 1 ≤ len ∧ len ≤ (L : Int))
+    (hf : (end_ - start + 1).toNat + L + 1 ≤ fuel) :
+    ∃ σ', MonShowGen.do_disassemble itoa mpurepr iat (fmtdisG d) (mdev d) P fuel args σ = .ok () σ' := by
+  rw [do_disassemble_eq]
+  simp only [doDisassemble, hr, disFlow, mdev]
+  have hd' : decide (start > end_) = false := by simp; omega
+  rw [hd']
+  -- below `start` the walk never looks: give the disassembler's totality there a dummy
+  have key : ∀ (fuel : Nat) (cur : Int), 0 ≤ cur → (end_ - cur + 1).toNat + L + 1 ≤ fuel →
+      (walk (iat σ.mpu) (fmtdisG d σ.mpu) ((2 : Int) ^ d.addrWidth - 1) start end_ fuel cur false).2 = .done := by
+    intro fuel
+    induction fuel with
+    | zero => intro cur _ h; omega
+    | succ f ih =>
+      intro cur hc0 h
+      unfold walk
+      by_cases hc : cur ≤ end_
+      · obtain ⟨len, text, e1, e2, e3⟩ := hi cur hc0 hc
+        obtain ⟨cn, rfl⟩ := Int.eq_ofNat_of_zero_le hc0
+        obtain ⟨ln, rfl⟩ := Int.eq_ofNat_of_zero_le (by omega : 0 ≤ len)
+        have hl : 0 ≤ (ln : Int) ∧ (ln : Int) < (f : Int) := by omega
+        simp only [Bool.false_eq_true, false_or, hc, if_true, e1, fmtdisG_spec hd, hl, and_self, hd',
+          Py65.Proofs.Show.advance_plain, Int.toNat_natCast]
+        apply ih
+        · omega
+        · omega
+      · simp [hc]
+  have hk := key fuel start h0 hf
+  generalize walk (iat σ.mpu) (fmtdisG d σ.mpu) ((2 : Int) ^ d.addrWidth - 1) start end_ fuel start false = w at hk
+  obtain ⟨lines, e⟩ := w
+  simp only at hk
+  subst hk
+  exact ⟨_, rfl⟩
+
+/-- non-vacuity: the GENERATED `do_disassemble`, `instruction_at` and `_format_disassembly` together,
+evaluated by the kernel: `disassemble fffe:0000` on a 6502 with `LDA #$42` at `$fffe` and `NOP` at 0
+wraps past the top of memory and prints two lines. -/
+example : (match MonShowGen.do_disassemble itoaG (fun _ => .error .Other) (iatG Model.Asm.dev6502 ⟨16, 16, []⟩)
+      (fmtdisG dev6502) (mdev dev6502) ⟨16, 16, []⟩ 10 "fffe:0000".toList
+      ⟨{ (default : St) with mem := fun a => if a = 0xfffe then 0xa9 else if a = 0xffff then 0x42 else 0xea }, []⟩ with
+    | .ok _ σ => σ.out | _ => []) =
+    ["$fffe  a9 42     LDA #$42".toList, "$0000  ea        NOP".toList] := by decide +kernel
+
+example : disRange ⟨16, 16, []⟩ "fffe:0000".toList = .range 0xfffe 0 ∧
+    disRange ⟨16, 16, []⟩ "c000".toList = .range 0xc000 0xc000 := by decide +kernel
+
+end Show
 
 end Py65.Props.C19g
